@@ -5,7 +5,7 @@ from .. import terms as T
 from ..lib import summarise, heap_writes, V, A, normal, raising, cond_str, no_inline, nested_events, loc_attr
 from ..symex import Valuation, default_policy
 from ..terms import fmt, ZERO, num
-from .sizers import sizing_paths, loop_asset_weight, is_empty_weights_path, call_is
+from .sizers import sizing_paths, loop_asset_weight, is_empty_weights_path, call_is, require_fresh_target
 
 PCM = 'PortfolioConstructionModel'
 
@@ -31,6 +31,14 @@ def strip_set(t):
             return t
 
 
+def _rooted_in(loc, r):
+    while loc[0] in ('sub', 'attr'):
+        loc = loc[1]
+        if loc == r:
+            return True
+    return False
+
+
 def union_operands(t):
     """operands of a union spelled a.union(b), a | b, set(x) | set(y), ... -> list of stripped operand terms, or None"""
     t0 = t
@@ -47,6 +55,15 @@ def union_operands(t):
         out = []
         for a in t[2]:
             out += union_operands(a) or [strip_set(a)]
+        return out
+    if t0[0] == 'call' and t0[1] == ('ext', 'SET') and len(t0[2]) == 1 and t0[2][0][0] == 'call' and t0[2][0][1] == ('ext', 'CONCAT'):
+        # set(xs + ys): the distinct elements of a concatenation are the union
+        out = []
+        for a in t0[2][0][2]:
+            if a[0] == 'call' and a[1] == ('ext', 'CONCAT'):
+                out += union_operands(('call', ('ext', 'SET'), (a,), ())) or [strip_set(a)]
+            else:
+                out.append(strip_set(a))
         return out
     return None
 
@@ -122,6 +139,10 @@ def s1_asset_set(ctx, rule):
         ctx.require(has_h, rule, 'the asset set includes every asset currently held in the session portfolio', sz[0].site, [fmt(o)[:80] for o in ops], key='%s|held' % rule)
         ctx.require(has_u, rule, 'the asset set includes the universe at dt', sz[0].site, [fmt(o)[:80] for o in ops], key='%s|universe' % rule)
         ctx.require(not other, rule, 'the asset set is exactly held assets UNION universe(dt)', sz[0].site, [fmt(o)[:80] for o in other], key='%s|union' % rule)
+        # the answers of the universe and of the broker are read, not edited: an in-place change of the list the universe hands out would persist into later rebalances
+        muts = [e for e in p.flat_events() if e.kind == 'write' and not e.d.get('local') and str(e.how).startswith('mut:') and any(e.loc == r or _rooted_in(e.loc, r) for r in hres | ures)]
+        ctx.require(not muts, rule, 'the universe\'s and the broker\'s answers are not modified in place', muts[0].site if muts else sz[0].site,
+                    ['%s %s' % (m.how, fmt(m.loc)[:80]) for m in muts], key='%s|no-mutation' % rule)
     ctx.floor(rule, 'construction paths with a recognised asset set', n, 2)
 
 
@@ -248,6 +269,7 @@ def s5_sizers(ctx):
         for s in sp:
             p, lp = s['path'], s['loop']
             asset, w, wsrc = loop_asset_weight(lp)
+            require_fresh_target(ctx, 'C09.S5', s, cname, 'C09.S5|%s|fresh-target' % cname)
             for b in s['bodies']:
                 bp = b['path']
                 if bp.outcome == 'raise':
